@@ -17,6 +17,11 @@ PRELUDE = ('.const ca = 5\n.const cb = -3\n.const cw = $1234\n.const cz = 0\n.co
            '.const sa = "ab"\n.const sb = "c"\nlbl:\n')
 
 
+# a constant defined BEHIND the statement through a chain of forward constants (one assembler pass per link): defined, with
+# the value at the end of the chain, like any other
+POSTLUDE = ".const fa = fb + 1\n.const fb = fc\n.const fc = 7\n"
+
+
 def render_num(t, rnd):
     n, radix, lz = t["n"], t["radix"], t["lz"]
     if radix == "dec":
@@ -96,7 +101,7 @@ def main(tier):
         text = render_tokens(c["toks"], rnd)
         d = c["dir"]
         stmt = ".text %s%s" % ((c["enc"] + " ") if c["enc"] else "", text) if d == "text" else ".%s %s" % (d, text)
-        src = PRELUDE + stmt + "\n"
+        src = PRELUDE + stmt + "\n" + POSTLUDE
         cases.append({"id": i, "files": {"main.asm": src}, "pc": 0x2000, "want": ["segments"]})
         meta[i] = {"tree": c["tree"], "dir": d, "enc": c["enc"], "src": src, "expr": text}
     V.log("[C03] %d expression programs" % len(cases))
